@@ -109,8 +109,15 @@ def run_case(case, ctx):
     m = DecisionTreeLogisticRegression(estimator=est, **params)
     w = rng.rand(len(X)) + 0.5 if weighted else None
     Xin = pandas.DataFrame(X, columns=["f%d" % i for i in range(X.shape[1])]) if frame else X
+    yin = y
+    if frame and sub % 2:
+        # a frame and a target Series that share a permuted index (rows of df.sample(frac=1))
+        ix = numpy.random.RandomState(sub % 997).permutation(len(X))
+        Xin.index = ix
+        yin = pandas.Series(y, index=ix)
+        cfg["index"] = "permuted"
     try:
-        r = m.fit(Xin, y) if w is None else m.fit(Xin, y, sample_weight=w)
+        r = m.fit(Xin, yin) if w is None else m.fit(Xin, yin, sample_weight=w)
     except Exception as e:
         ctx.hit("fit")
         ctx.violation(K + "fit/raised/%s" % type(e).__name__, "fit raised on binary data: %s" % str(e)[:200], cfg=cfg)
